@@ -71,6 +71,29 @@ Theorem C12_fault_timer : forall cfg pre post,
 Proof. exact returns_by_timer. Qed.
 Print Assumptions C12_fault_timer.
 
+(* [pre] is arbitrary: the stall may strike at EVERY step, step 0 included.  The initializer selection
+   (serverGetProtocolInitializer's read of the first header, clientGetProtocolInitializer's version
+   exchange) is not instantaneous in the model: it is the goroutine's steps SWaitFirst / CStart / CWaitVer,
+   which run under the timer like every later read (the harness checks on session.go that
+   getProtocolInitializer is called inside the goroutine started after the timer was armed).  Spelled out
+   for a peer that is silent from its very first byte: *)
+Theorem C12_fault_timer_from_the_first_byte : forall cfg post,
+  cret (wc (run cfg (LTimerC :: LC :: LRetC :: post) (init cfg))) <> None /\
+  sret (ws (run cfg (LTimerS :: LS :: LRetS :: post) (init cfg))) <> None.
+Proof.
+  intros cfg post. destruct (C12_fault_timer cfg [] post) as [A B]. split; [apply A|apply B]; reflexivity.
+Qed.
+Print Assumptions C12_fault_timer_from_the_first_byte.
+(* ... and for a server that never answers the memfd client's version event (the client has written it) *)
+Theorem C12_fault_timer_version_unanswered : forall cfg post,
+  cret (wc (run cfg (LC :: LTimerC :: LC :: LRetC :: post) (init cfg))) <> None.
+Proof.
+  intros cfg post. destruct (C12_fault_timer cfg [LC] post) as [A _]. apply A.
+  unfold run, fold_left, step. cbn. destruct (client_rejects cfg); cbn; [reflexivity|].
+  destruct (mt cfg); reflexivity.
+Qed.
+Print Assumptions C12_fault_timer_version_unanswered.
+
 (* ... and an error return — ANY error, the timeout included — leaves nothing of the session's own
    behind: no mapping, no dup'ed descriptor, no initialiser goroutine.  (Before the repair of
    newSession/initProtocol this statement was refuted twice: stalled peer, and a peer answering after
